@@ -359,6 +359,20 @@ func sp(s string) *string   { return &s }
 func np(n float64) *float64 { return &n }
 func bp(b bool) *bool       { return &b }
 
+// named numeric kinds that implement the library's interfaces: the interface decides, not the underlying kind
+type c15Pct int
+
+func (p c15Pct) Number() float64 { return float64(p) / 100 }
+
+type c15Cents int64
+
+func (c c15Cents) String() string { return fmt.Sprintf("%d.%02d", int64(c)/100, int64(c)%100) }
+
+type c15Ratio float64
+
+func (r c15Ratio) Number() float64 { return float64(r) * 2 }
+func (r c15Ratio) Boolean() bool   { return false }
+
 func c15Misc() []miscValue {
 	var np3 *int
 	var nps *string
@@ -428,6 +442,9 @@ func c15Misc() []miscValue {
 		{"func-kind Stringer", funcS(func() string { return "fs" }), sp("fs"), nil, nil},
 		{"net.IP", net.IP{10, 0, 0, 1}, sp("10.0.0.1"), nil, nil},
 		{"time.Duration", 1500 * time.Millisecond, sp("1.5s"), nil, nil},
+		{"named int with Number()", c15Pct(50), nil, np(0.5), bp(true)},
+		{"named int64 with String()", c15Cents(1234), sp("12.34"), np(12.34), bp(true)},
+		{"named float64 with Number() and Boolean()", c15Ratio(1.5), nil, np(3), bp(false)},
 	}
 }
 
@@ -729,6 +746,8 @@ func c15PrintLaw(vals []stick.Value) string {
 		{c15TwigEnv, "p.html", func(s string, b bool) []string { return []string{escape.HTML(s), escape.HTML(s), s} }, []string{"{{ v }} (twig, .html)", "{{ v|escape('html') }}", "{{ v|raw }}"}},
 		{c15TwigEnv, "p.js", func(s string, b bool) []string { return []string{escape.JS(s), escape.JS(s), s} }, []string{"{{ v }} (twig, .js)", "{{ v|escape('js') }} (.js)", "{{ v|raw }} (.js)"}},
 	}
+	forms = append(forms, form{c15CoreEnv, "{% for v in vs %}{{ v * 1 }}\x00{{ 1 * v }}\x00{{ v / 1 }}\x00{% endfor %}", nil,
+		[]string{"{{ v * 1 }} (arithmetic reads its operands through CoerceNumber)", "{{ 1 * v }}", "{{ v / 1 }}"}})
 	for _, f := range forms {
 		out, err, pan := tryExec(f.env, f.name, map[string]stick.Value{"vs": vs})
 		if err != nil || pan != "" {
@@ -740,7 +759,13 @@ func c15PrintLaw(vals []stick.Value) string {
 			if strings.Contains(s, "\x00") {
 				return ""
 			}
-			want := f.want(s, stick.CoerceBool(v))
+			var want []string
+			if f.want == nil {
+				ns := stick.CoerceString(stick.CoerceNumber(v))
+				want = []string{ns, ns, ns}
+			} else {
+				want = f.want(s, stick.CoerceBool(v))
+			}
 			for k := range want {
 				if 3*i+k >= len(parts) || parts[3*i+k] != want[k] {
 					got := "<missing>"
